@@ -400,21 +400,24 @@ def powerPos (x : α) : Nat → α
     else t * t * t * t * powerPos x ((n + 4) % 4)
 decreasing_by all_goals omega
 
-/-- `power<N,D>(x)`: `N/D` reduced (`std::ratio`); `D = 1`: `PowerPos` / `PowerPos(1/x)`;
-`D = 2`: `sqrt` of it; otherwise (or `|N| > 100`) `std::pow(x, N/D)` -/
+/-- `power<N,D>(x)` (`PowerImplSelector`): `D = 1`: `PowerPos<N>` / `PowerPos<-N>(1/x)`; `D = 2`:
+`sqrt` of it (both *without* reducing `N/D`: the partial specialisations match first); any other `D`:
+`N/D` is reduced (`std::ratio`) and the choice is made again, `std::pow(x, N/D)` when the reduced
+denominator is neither 1 nor 2; `|N| > 100` always goes to `std::pow` -/
 def powerD (sqrt : α → α) (stdpow : α → Int → Nat → α) (n : Int) (d : Nat) (x : α) : α :=
-  let g := Nat.gcd n.natAbs d
-  let n' : Int := if g = 0 then n else n / (g : Int)
-  let d' : Nat := if g = 0 then d else d / g
-  -- `std::ratio<0, D>` is `0/1`
-  let d' := if n' = 0 then 1 else d'
-  if d' = 1 then
-    if n'.natAbs > 100 then stdpow x n' 1
-    else if n' < 0 then powerPos (1 / x) n'.natAbs else powerPos x n'.natAbs
-  else if d' = 2 then
-    if n'.natAbs > 100 then stdpow x n' 2
-    else if n' < 0 then sqrt (powerPos (1 / x) n'.natAbs) else sqrt (powerPos x n'.natAbs)
-  else stdpow x n' d'
+  let sel1 (m : Int) : α :=
+    if m.natAbs > 100 then stdpow x m 1
+    else if m < 0 then powerPos (1 / x) m.natAbs else powerPos x m.natAbs
+  let sel2 (m : Int) : α :=
+    if m.natAbs > 100 then stdpow x m 2
+    else if m < 0 then sqrt (powerPos (1 / x) m.natAbs) else sqrt (powerPos x m.natAbs)
+  if d = 1 then sel1 n
+  else if d = 2 then sel2 n
+  else
+    let r := reduce n d
+    if r.den = 1 then sel1 r.num
+    else if r.den = 2 then sel2 r.num
+    else stdpow x r.num r.den
 
 end power
 
